@@ -144,7 +144,10 @@ class ElectionProfile:
                 ranking = [rank[0] for rank in ranking] # possibly empty
                 # candidate IDs run 1..nCand: 'B' holds up to 255, 'H' up to 65535
                 typecode = 'B' if profile.nCand < 256 else 'H' if profile.nCand < 65536 else 'L'
-                self.ranking = array.array(typecode, ranking)
+                try:
+                    self.ranking = array.array(typecode, ranking)
+                except OverflowError:   # absurd candidate count: keep the list, the file is rejected later
+                    self.ranking = ranking
 
     def __validate(self):
         "check profile for internal consistency"
